@@ -28,6 +28,15 @@ def gen_case(ctx, rng, i, tag='random'):
         ops.append(['stale', cid, rng.choice(['close', 'wait', 'terminate'])])
         if rng.random() < 0.5:
             ops.append(['enqueue', 0])
+    if rng.random() < 0.2:
+        # directed prefix: a context that has served several workers - some finished long ago, some still alive - is deleted
+        cid = rng.choice(IDS)
+        ops.append(['create', cid])
+        for _ in range(rng.randrange(2, 5)):
+            ops.append([rng.choice(['worker', 'pworker', 'pworker']), cid])
+        if rng.random() < 0.3:
+            ops.insert(rng.randrange(len(ops) - 1, len(ops) + 1), ['waitall'])
+        ops.append(['delete', cid, 'handle'])
     for _ in range(rng.randrange(2, 9)):
         r = rng.random()
         cid = rng.choice(IDS)
